@@ -14,6 +14,8 @@ CHECK = Check(
     assumptions=[
         "only cases in which no range / radius / threshold / tie decision is within 1e-6 of its boundary (reference "
         "geometry) are compared on decisions; the others are still executed (crash detection) and counted as boundary",
+        "AP / APH / MOTA are compared only when all estimate confidences of the case are distinct (ranking ties are decided "
+        "by the order in which the matcher emits results)",
         "tolerance 1e-6 on scores and metrics (IoU: 1e-6 + 1e-13*|ego translation|/min box dimension)",
     ],
     design_ref="§6 C07",
@@ -30,12 +32,12 @@ def _tracking_cases(tier):
     return c05.tracking_histories(tier)
 
 
-@CHECK.given("ego_vs_map", _cases, quick=90, thorough=4000)
+@CHECK.given("ego_vs_map", _cases, quick=130, thorough=4000)
 def ego_vs_map(ctx, d):
     _compare(ctx, d)
 
 
-@CHECK.given("ego_vs_map_tracking", _tracking_cases, quick=45, thorough=2500)
+@CHECK.given("ego_vs_map_tracking", _tracking_cases, quick=60, thorough=2500)
 def ego_vs_map_tracking(ctx, d):
     """Consistent multi-frame tracks (persistent ids, switches, misses): MOTA / MOTP / ID switches in both frames."""
     _compare(ctx, d)
@@ -53,6 +55,12 @@ def _compare(ctx, d):
     decisions = margin >= 1e-6
     if not decisions:
         ctx.boundary()
+    # equal confidences are a tie in the AP ranking: the order in which the matcher emits results (decided by
+    # floating-point noise between equal candidate distances of disjoint pairs) then changes AP/APH legitimately
+    confs = [e["score"] for f in d["frames"] for e in f["est"]]
+    conf_tie = len(set(confs)) < len(confs)
+    if conf_tie:
+        ctx.cls("confidence_tie_metrics_not_compared")
     nt = False
     for i, f in enumerate(d["frames"]):
         sa = MG.summarize_frame(a["results"][i], a["est_lists"][i], a["gt_frames"][i].objects)
@@ -64,6 +72,7 @@ def _compare(ctx, d):
         MG.compare_summaries(
             ctx, sa, sb, f"frame{i}" if False else "ego-vs-map", tol=tol,
             score_tol={"cd": tol, "pd": tol, "iou2": iou_tol, "iou3": iou_tol}, decisions=decisions,
+            metrics=len({e["score"] for e in f["est"]}) == len(f["est"]) and (d["task"] != "tracking" or not conf_tie),
         )
         # non-trivial classification
         removed = len(sa["crit_gt"]) < len(f["gt"]) or len(sa["pairs"]) < len(f["est"])
@@ -87,7 +96,7 @@ def _compare(ctx, d):
     with ctx.under_test("get_scene_result"):
         sa = MG.summarize_score(a["mgr"].get_scene_result())
         sb = MG.summarize_score(b["mgr"].get_scene_result())
-    if sa is not None and sb is not None and decisions:
+    if sa is not None and sb is not None and decisions and not conf_tie:
         ctx.require(sa["num_gt"] == sb["num_gt"], "ego-vs-map:scene-num-gt", lambda: f"{sa['num_gt']} vs {sb['num_gt']}")
         MG.compare_scores(ctx, sa, sb, "ego-vs-map:scene", tol=1e-6)
     ctx.mark_nontrivial(nt and decisions)
